@@ -88,7 +88,10 @@ def parse(data, strict=True):
                 nxt = body + 8
             if strict:
                 if prev != last_pos.get(oid, 0) and \
-                        prev != prev_txn_pos.get(oid, 0):
+                        prev != prev_txn_pos.get(oid, 0) and \
+                        not (status == 'p' and prev == 0):
+                    # (a pack keeps revisions of the packed region without
+                    # chaining them: prev is 0 there)
                     raise FormatError(
                         'prev pointer %d != previous record %d of oid at %d'
                         % (prev, last_pos.get(oid, 0), q))
